@@ -48,6 +48,18 @@ class Frame:
 CALLBACK_ARITY = {}
 
 
+def ensure_opkey(c):
+    """the structural dictionary key of an OuterPin: an injective pairing of (instance, inner pin), distinct from every object"""
+    if not hasattr(c, '_opkey'):
+        from z3 import Function, MultiPattern
+        c._opkey = Function('opkey', c.Ref, c.Ref, c.Ref)
+        a1, a2, b1, b2 = (Const(n, c.Ref) for n in ('a1q_ok', 'a2q_ok', 'b1q_ok', 'b2q_ok'))
+        c.axioms += [ForAll([a1, a2, b1, b2], Implies(c._opkey(a1, a2) == c._opkey(b1, b2), And(a1 == b1, a2 == b2)),
+                            patterns=[MultiPattern(c._opkey(a1, a2), c._opkey(b1, b2))]),
+                     ForAll([a1, a2], c.cls(c._opkey(a1, a2)) == c.C['Foreign'], patterns=[c._opkey(a1, a2)])]
+    return c._opkey
+
+
 class SE:
     def __init__(self, ctx, ct, spec, sat_timeout=4000, max_depth=6):
         self.ctx, self.ct, self.spec = ctx, ct, spec
@@ -254,9 +266,14 @@ class SE:
         """store to a private slot of object r (class already known to own the slot)"""
         kind = FIELDS[name][1] if name in FIELDS else None
         h = st.heap
+        if name == '_pins' and v[0] == 'memo' and st.heap['memo_k:%d' % v[1]].eq(K(self.ctx.Ref, False)): v = ('odict_new',)
         if name == '_pins' and v[0] == 'odict_new':
             self.spec.on_store(self, st, 'okeys', r, None, None)
             h['okeys'] = Store(h['okeys'], r, K(self.ctx.Ref, False))
+            return
+        if name == '_data' and v[0] == 'datacopy':
+            # a deep copy of another element's data: equal keys and values (values are immutable in this model)
+            h['dhas'] = Store(h['dhas'], r, h['dhas'][v[1]]); h['dval'] = Store(h['dval'], r, h['dval'][v[1]])
             return
         if name == '_data':
             if v[0] == 'memo' and st.heap['memo_k:%d' % v[1]].eq(K(self.ctx.Ref, False)): v = ('dict_empty',)
@@ -493,13 +510,7 @@ class SE:
         s2 = st.fork(); s2.pc.append(c.isa(v[1], 'OuterPin'))
         if not self.sat(s2): return v[1]
         # OuterPin.__eq__/__hash__ are structural: the key is the pair (instance, inner pin) at the time of the operation
-        if not hasattr(c, '_opkey'):
-            from z3 import Function, MultiPattern
-            c._opkey = Function('opkey', c.Ref, c.Ref, c.Ref)
-            a1, a2, b1, b2 = (Const(n, c.Ref) for n in ('a1q_ok', 'a2q_ok', 'b1q_ok', 'b2q_ok'))
-            c.axioms += [ForAll([a1, a2, b1, b2], Implies(c._opkey(a1, a2) == c._opkey(b1, b2), And(a1 == b1, a2 == b2)),
-                                patterns=[MultiPattern(c._opkey(a1, a2), c._opkey(b1, b2))]),
-                         ForAll([a1, a2], c.cls(c._opkey(a1, a2)) == c.C['Foreign'], patterns=[c._opkey(a1, a2)])]
+        ensure_opkey(c)
         h = st.heap
         return self.name_term(st, If(c.isa(v[1], 'OuterPin'), c._opkey(h['_instance'][v[1]], h['_inner_pin'][v[1]]), v[1]))
 
@@ -738,6 +749,8 @@ class SE:
             return self.branch(st, h['okeys'][i][q[1]], ok, lambda s: self.exit(s, 'KeyError'))
         if name == 'values':
             return cont(st, ('odict_values', i))
+        if name == 'items':
+            return cont(st, ('odict_items', i))
         if name == 'get':
             q = args[0]
             dflt = args[1] if len(args) > 1 else self.none()
